@@ -6,8 +6,14 @@
 package vsync
 
 import (
+	"sync"
+
 	"github.com/samaritan-proxy/samaritan/verifrt/sched"
 )
+
+// Outside a controlled execution (sched.E == nil: package init, sequential harnesses, and the
+// free-running race pass) every shim falls back to the real primitive, so the shims themselves are
+// race free and block for real.
 
 // Locker mirrors sync.Locker.
 type Locker interface {
@@ -18,15 +24,24 @@ type Locker interface {
 // Mutex mirrors sync.Mutex.
 type Mutex struct {
 	held bool
+	real sync.Mutex
 }
 
 func (m *Mutex) Lock() {
+	if sched.E == nil {
+		m.real.Lock()
+		return
+	}
 	sched.Wait("lock", m, func() bool { return !m.held })
 	m.held = true
 	sched.TrackHeld(m, func() { m.held = false })
 }
 
 func (m *Mutex) Unlock() {
+	if sched.E == nil {
+		m.real.Unlock()
+		return
+	}
 	sched.Op("unlock", m)
 	if !m.held {
 		if !sched.Active() && sched.E != nil {
@@ -45,9 +60,14 @@ type RWMutex struct {
 	wslot   bool // a writer holds the writer slot (pending or active)
 	writer  bool // writer active
 	readers int
+	real    sync.RWMutex
 }
 
 func (m *RWMutex) Lock() {
+	if sched.E == nil {
+		m.real.Lock()
+		return
+	}
 	sched.Wait("wlock-announce", m, func() bool { return !m.wslot })
 	m.wslot = true
 	sched.TrackHeld(m, func() { m.wslot, m.writer, m.readers = false, false, 0 })
@@ -56,6 +76,10 @@ func (m *RWMutex) Lock() {
 }
 
 func (m *RWMutex) Unlock() {
+	if sched.E == nil {
+		m.real.Unlock()
+		return
+	}
 	sched.Op("wunlock", m)
 	if !m.writer {
 		if !sched.Active() && sched.E != nil {
@@ -71,12 +95,20 @@ func (m *RWMutex) Unlock() {
 }
 
 func (m *RWMutex) RLock() {
+	if sched.E == nil {
+		m.real.RLock()
+		return
+	}
 	sched.Wait("rlock", m, func() bool { return !m.wslot })
 	m.readers++
 	sched.TrackHeld(m, func() { m.wslot, m.writer, m.readers = false, false, 0 })
 }
 
 func (m *RWMutex) RUnlock() {
+	if sched.E == nil {
+		m.real.RUnlock()
+		return
+	}
 	sched.Op("runlock", m)
 	if m.readers <= 0 {
 		if !sched.Active() && sched.E != nil {
@@ -100,10 +132,15 @@ func (r *rlocker) Unlock() { (*RWMutex)(r).RUnlock() }
 
 // WaitGroup mirrors sync.WaitGroup.
 type WaitGroup struct {
-	n int
+	n    int
+	real sync.WaitGroup
 }
 
 func (w *WaitGroup) Add(delta int) {
+	if sched.E == nil {
+		w.real.Add(delta)
+		return
+	}
 	sched.Op("wg-add", w)
 	w.n += delta
 	if w.n < 0 {
@@ -118,6 +155,10 @@ func (w *WaitGroup) Add(delta int) {
 func (w *WaitGroup) Done() { w.Add(-1) }
 
 func (w *WaitGroup) Wait() {
+	if sched.E == nil {
+		w.real.Wait()
+		return
+	}
 	sched.Wait("wg-wait", w, func() bool { return w.n == 0 })
 }
 
@@ -125,9 +166,14 @@ func (w *WaitGroup) Wait() {
 type Once struct {
 	done    bool
 	running bool
+	real    sync.Once
 }
 
 func (o *Once) Do(f func()) {
+	if sched.E == nil {
+		o.real.Do(f)
+		return
+	}
 	sched.Wait("once", o, func() bool { return !o.running })
 	if o.done {
 		return
@@ -145,9 +191,14 @@ type Pool struct {
 	New   func() interface{}
 	items []interface{}
 	reg   bool
+	mu    sync.Mutex // guards items outside a controlled execution
 }
 
 func (p *Pool) Get() interface{} {
+	if sched.E == nil {
+		p.mu.Lock()
+		defer p.mu.Unlock()
+	}
 	sched.Op("pool-get", p)
 	if n := len(p.items); n > 0 {
 		x := p.items[n-1]
@@ -163,6 +214,10 @@ func (p *Pool) Get() interface{} {
 func (p *Pool) Put(x interface{}) {
 	if x == nil {
 		return
+	}
+	if sched.E == nil {
+		p.mu.Lock()
+		defer p.mu.Unlock()
 	}
 	sched.Op("pool-put", p)
 	if !p.reg {
@@ -186,6 +241,15 @@ func (p *Pool) Put(x interface{}) {
 type Map struct {
 	keys []interface{}
 	m    map[interface{}]interface{}
+	mu   sync.Mutex // guards the map outside a controlled execution
+}
+
+func (m *Map) free() func() {
+	if sched.E == nil {
+		m.mu.Lock()
+		return m.mu.Unlock
+	}
+	return func() {}
 }
 
 func (m *Map) init() {
@@ -202,6 +266,7 @@ func (m *Map) Load(key interface{}) (interface{}, bool) {
 }
 
 func (m *Map) Store(key, value interface{}) {
+	defer m.free()()
 	sched.Op("map-store", m)
 	m.init()
 	if _, ok := m.m[key]; !ok {
@@ -232,6 +297,7 @@ func (m *Map) LoadAndDelete(key interface{}) (interface{}, bool) {
 }
 
 func (m *Map) Delete(key interface{}) {
+	defer m.free()()
 	sched.Op("map-delete", m)
 	m.init()
 	m.del(key)
